@@ -18,7 +18,7 @@ def _odl():
     return odl, np
 
 
-KINDS = ('identity', 'native', 'native-broadcast', 'decorated', 'decorated-otypes', 'inplace', 'constant', 'native-complex', 'decorated-complex')
+KINDS = ('identity', 'native', 'native-broadcast', 'decorated', 'decorated-square', 'decorated-otypes', 'inplace', 'constant', 'native-complex', 'decorated-complex')
 DTYPES = ('float32', 'float64', 'complex64', 'complex128')
 
 
@@ -35,6 +35,10 @@ def make_callable(kind, ndim):
     if kind == 'decorated':
         f = odl.util.vectorize(lambda x: (x[0] if ndim > 1 else x) * 1.1 + (x[1] ** 2 if ndim > 1 else 0.0) + 1.0 / 3.0)
         return f, (lambda p: p[0] * 1.1 + (p[1] ** 2 if ndim > 1 else 0.0) + 1.0 / 3.0)
+    if kind == 'decorated-square':
+        # integer-valued at points with integer coordinates: the output type seen at such a point must not stick to the wrapper
+        f = odl.util.vectorize(lambda x: x[0] ** 2 + (x[1] ** 2 if ndim > 1 else 0))
+        return f, (lambda p: p[0] ** 2 + (p[1] ** 2 if ndim > 1 else 0))
     if kind == 'decorated-otypes':
         f = odl.util.vectorize(otypes=['float64'])(lambda x: (x[0] if ndim > 1 else x) / 3.0 + (x[1] if ndim > 1 else 0.0))
         return f, (lambda p: p[0] / 3.0 + (p[1] if ndim > 1 else 0.0))
@@ -63,6 +67,10 @@ def cases(tier='quick'):
             for d1, d2 in itertools.product(dts, dts):
                 for first in ('element', 'collocation-out'):
                     yield dict(ndim=ndim, kind=kind, uses=[[d1, first], [d2, 'element']])
+            if kind.startswith('decorated'):
+                # the decorated callable is first tried at a single point with integer coordinates (as one does in a REPL), then sampled
+                for d2 in dts:
+                    yield dict(ndim=ndim, kind=kind, uses=[['int', 'single-point'], [d2, 'element']])
 
 
 def check(cfg):
@@ -72,6 +80,16 @@ def check(cfg):
     f, ref = make_callable(kind, ndim)
     evals = 0
     for dtype, how in cfg['uses']:
+        if how == 'single-point':
+            pt = [2, 1][:ndim]
+            try:
+                val = f(pt[0] if ndim == 1 else pt)
+            except Exception as e:
+                return 'evaluation at the single point %r raised %s: %s' % (pt, type(e).__name__, e), evals
+            evals += 1
+            if abs(complex(val) - complex(ref([float(c) for c in pt]))) > 1e-12:
+                return 'value at the single point %r is %r, the callable gives %r' % (pt, val, ref([float(c) for c in pt])), evals
+            continue
         sp = odl.uniform_discr([0.0, -1.0][:ndim], [1.0, 2.0][:ndim], [4, 3][:ndim], dtype=dtype)
         mesh = sp.meshgrid
         coords0 = [v.copy() for v in sp.grid.coord_vectors]
@@ -103,7 +121,40 @@ def check(cfg):
     return None, evals
 
 
+def resampling_check(schemes):
+    """Resampling with the given per-axis schemes against a separable reference (1-d interpolation applied axis by axis; grids chosen without nearest-neighbour ties)"""
+    odl, np = _odl()
+    nd = len(schemes)
+    rng = np.random.default_rng(12)
+    X = odl.uniform_discr([0.0] * nd, [1.0] * nd, [8, 9, 7][:nd])
+    Y = odl.uniform_discr([0.0] * nd, [1.0] * nd, [3, 4, 2][:nd])         # same domain (required by Resampling), coarser sampling: every target node lies inside the hull of the source nodes, no nearest-neighbour ties
+    x = X.element(rng.standard_normal(X.shape))
+    got = odl.Resampling(X, Y, list(schemes) if nd > 1 else schemes[0])(x).asarray()
+    ref = x.asarray()
+    for ax, sch in enumerate(schemes):
+        cv, pts = X.grid.coord_vectors[ax], Y.grid.coord_vectors[ax]
+        M = np.zeros((len(pts), len(cv)))
+        for i, p in enumerate(pts):
+            k = int(np.clip(np.searchsorted(cv, p) - 1, 0, len(cv) - 2))
+            t = (p - cv[k]) / (cv[k + 1] - cv[k])
+            t = min(max(t, 0.0), 1.0)
+            if sch == 'linear':
+                M[i, k], M[i, k + 1] = 1 - t, t
+            else:
+                M[i, k + (1 if t >= 0.5 else 0)] = 1.0
+        ref = np.moveaxis(np.tensordot(M, ref, axes=(1, ax)), 0, ax)
+    if got.shape != ref.shape or not np.allclose(got, ref, atol=1e-12):
+        return 'Resampling(%r -> %r, interp=%r) differs from the per-axis reference by %.3g' % (X.shape, Y.shape, list(schemes), float(np.max(np.abs(got - ref))))
+    return None
+
+
 def replay(ob):
+    if ob.get('unit', '').startswith('resampling/'):
+        try:
+            bad = resampling_check(tuple((ob.get('config') or {}).get('schemes')))
+        except Exception as e:
+            return {'reproduced': False, 'detail': 'native evaluation raised %s: %s' % (type(e).__name__, e)}
+        return {'reproduced': bool(bad), 'detail': bad or 'matches the per-axis reference natively'}
     cfg = ob.get('model') or (ob.get('replay') or {}).get('case')
     if not cfg or 'uses' not in cfg:
         return {'reproduced': False, 'detail': 'no native concretisation for this obligation kind'}
